@@ -107,7 +107,7 @@ def int_to_bytes(number: int) -> bytes:
     tert(type(number) is int, 'number must be int')
     negative = number < 0
     number = abs(number)
-    n_bits = floor(log2(number)) + 1 if number != 0 else 1
+    n_bits = number.bit_length() if number != 0 else 1
     n_bytes = ceil(n_bits/8)
 
     if negative:
@@ -126,7 +126,7 @@ def uint_to_bytes(number: int) -> bytes:
         purposes, this is deprecated.
     """
     tert(type(number) is int, 'number must be int')
-    n_bits = floor(log2(number)) + 1 if number != 0 else 1
+    n_bits = number.bit_length() if number != 0 else 1
     n_bytes = ceil(n_bits/8)
 
     return number.to_bytes(n_bytes, 'big')
